@@ -32,7 +32,8 @@ META = dict(
               "Discipline.set_cache; tolerance 0 (all operations at calls 1 and 2) and the concrete tolerance 1/4 (four families of histories: plain, "
               "caller arrays modified, returned arrays modified after execute / after linearize; a = [symbol, 0] so that every norm is an absolute value); "
               "discipline variants: Jacobian computed by _compute_jacobian, Jacobian computed by _run (_has_jacobian=True), self-coupled output written "
-              "in place into the input array",
+              "in place into the input array; own configurations (SimpleCache and full cache, tolerance 0 and 1/4) add linearize(all blocks, execute=False), "
+              "which leaves entries holding a Jacobian and no outputs",
         thorough="same with all nine operations at every call for tolerances 0, 1/4 and 2, and histories of 3 calls under colliding hashes",
     ),
     outside=[
@@ -41,10 +42,10 @@ META = dict(
         "protects that configuration against aliasing)",
         "sparse Jacobians (scipy.sparse cannot hold symbols)",
         "collisions of the real xxh3 byte hash and its consistency with array equality (-0.0, integer vs float dtypes)",
-        "linearize(execute=False), approximated Jacobians (C16), namespaces, data processors, virtual_execution, caches shared by several disciplines",
+        "how often the Jacobian body runs when linearize(execute=False) is involved (that call never consults the cache), approximated Jacobians (C16), namespaces, data processors, virtual_execution, caches shared by several disciplines",
         "symbolic tolerances (z3 answers unknown on the products tolerance*norm once boundary points are excluded) and Euclidean norms of vectors with "
         "two symbolic components under a tolerance (sqrt auxiliaries: unknown)",
-        "tolerance > 0: which of the eligible entries is served, how often the body runs, and pairs of inputs closer than 2**-10 to the boundary of the "
+        "tolerance > 0: which of the eligible entries is served, how often the body runs for inputs that are close but not equal (equal inputs: at most once, asserted), and pairs of inputs closer than 2**-10 to the boundary of the "
         "tolerance test (its float64 evaluation is rounding-sensitive there)",
         "blocks of a partial Jacobian request that were not requested",
     ],
@@ -78,6 +79,7 @@ OPS = {
     "exec_nob": ("exec", "fresh", False, False),
     "lin_nob": ("lin", "fresh", False, False),
     "lin_part": ("lin_part", "fresh", False, True),
+    "lin_noexec": ("lin_noexec", "fresh", False, True),   # linearize(..., execute=False): the Jacobian body runs without a previous execution
     "exec_reuse": ("exec", "reuse", False, True),
     "lin_reuse": ("lin", "reuse", False, True),
     "exec_junk": ("exec", "fresh", True, True),
@@ -321,6 +323,9 @@ def _history(ctx, cfg):
             if kind == "lin":
                 jac = d.linearize(dict(data), compute_all_jacobians=True)
                 wanted = [(o, n) for o in OUT_SIZES for n in IN_SIZES]
+            elif kind == "lin_noexec":
+                jac = d.linearize(dict(data), compute_all_jacobians=True, execute=False)
+                wanted = [(o, n) for o in OUT_SIZES for n in IN_SIZES]
             else:
                 jac = d.linearize(dict(data))
                 wanted = [(o, n) for o in part_out for n in part_in]
@@ -343,7 +348,9 @@ def _history(ctx, cfg):
                                      for (o, n) in blocks for r in range(OUT_SIZES[o]) for c in range(IN_SIZES[n])])
             # the output the discipline holds after linearize is served like the one of execute (s is reset to its input value)
             held = d.io.data.get("y")
-            if held is None or len(to_list(held)) != OUT_SIZES["y"]:
+            if kind == "lin_noexec":
+                pass  # (no execution was requested: what the discipline holds as outputs is not specified)
+            elif held is None or len(to_list(held)) != OUT_SIZES["y"]:
                 _check(ctx, pre + "output y missing after linearize", ctx.false())
             else:
                 hy = to_list(held)
@@ -366,7 +373,8 @@ def _history(ctx, cfg):
         _check(ctx, pre + "default value of b untouched", _all_eq(ctx, to_list(d.default_input_data["b"]), bd))
 
         # ---- how often the body runs (tolerance 0) ---------------------------------------------
-        if exact and cache_kind in ("simple", "full") and k > 0:
+        # (after linearize(execute=False) nothing was executed at that input: the next execution there must run the body)
+        if exact and cache_kind in ("simple", "full") and k > 0 and calls[k - 1]["kind"] != "lin_noexec":
             same = _all_eq(ctx, _flat(vals), _flat(calls[k - 1]["vals"]))
             _check(ctx, pre + "same input as the previous call: the body (run) is not executed again",
                    ctx.implies(same, ctx.true() if not runs else ctx.false()))
@@ -379,17 +387,21 @@ def _history(ctx, cfg):
 
     # ---- full cache, tolerance 0: at most one run per distinct input, one entry per distinct input -------
     pre = f"end{_tag(hist)}: "
-    if cache_kind == "full" and exact:
+    if cache_kind == "full":
+        # (with a tolerance too: an input equal to an earlier one is within any tolerance of it)
         all_runs = [(k, c) for k, cl in enumerate(calls) for c in cl["runs"]]
         for i in range(len(all_runs)):
             for j in range(i + 1, len(all_runs)):
                 (ki, ci), (kj, cj) = all_runs[i], all_runs[j]
                 _check(ctx, pre + f"full cache: the body (run) ran at most once per distinct input (calls {ki},{kj})", ctx.not_(_all_eq(ctx, ci.flat, cj.flat)))
+    if cache_kind == "full" and exact:
         if not any(c["kind"] == "lin_part" for c in calls):  # (a full request after a partial one is recomputed and not stored: not asserted)
             all_jacs = [(k, c) for k, cl in enumerate(calls) for c in cl["jacs"]]
             for i in range(len(all_jacs)):
                 for j in range(i + 1, len(all_jacs)):
                     (ki, ci), (kj, cj) = all_jacs[i], all_jacs[j]
+                    if "lin_noexec" in (calls[ki]["kind"], calls[kj]["kind"]):
+                        continue  # linearize(execute=False) never consults the cache and leaves an entry without outputs, which a later complete linearization recomputes: the statement counts executions of the body, recomputed Jacobians are not asserted
                     _check(ctx, pre + f"full cache: the body (jac) ran at most once per distinct input (calls {ki},{kj})", ctx.not_(_all_eq(ctx, ci.flat, cj.flat)))
         n_distinct = 0.0
         for k in range(K):
@@ -452,6 +464,10 @@ def configs(tier):
         # every hash collides (no in-place modification: stored keys must not change after they were hashed)
         for tol in (0, 0.25):
             add(cache=cache, tol=tol, K=2 if quick else 3, hash="collide", ops=BASIC)
+        # linearization without a previous execution (entries holding a Jacobian and no outputs)
+        add(cache=cache, tol=0, K=3, hash="perfect", ops0=["lin_noexec"], ops=["exec", "lin", "lin_noexec"])
+        add(cache=cache, tol=0.25, K=3, hash="perfect", ops0=["lin_noexec"], ops=["exec", "lin", "lin_noexec"])
+        add(cache=cache, tol=0.25, K=3, hash="perfect", ops0=["exec"], ops1=["lin_noexec"], ops=["exec", "lin", "lin_noexec"])
         # partial Jacobian requests, Jacobian computed by _run, self-coupled output written in place
         add(cache=cache, tol=0, K=3, hash="perfect", ops=["exec", "lin", "lin_part"])
         add(cache=cache, tol=0, K=3, hash="perfect", variant="jac_in_run", ops=["exec", "lin", "exec_reuse"])
